@@ -15,6 +15,7 @@ import (
 	"sort"
 	"strings"
 	"testing"
+	"testing/iotest"
 	"time"
 
 	"github.com/alecthomas/participle/v2/lexer"
@@ -425,7 +426,11 @@ func RunC05(t *testing.T, registry map[int]lexer.Definition, dataFile string) {
 				}()
 				rd := strings.NewReader("already read\n" + in)
 				_, _ = io.CopyN(io.Discard, rd, int64(len("already read\n")))
-				l, err := gen.Lex("f", rd)
+				var src io.Reader = rd
+				if i%2 == 1 {
+					src = iotest.DataErrReader(rd) // the last bytes arrive together with io.EOF
+				}
+				l, err := gen.Lex("f", src)
 				if err != nil {
 					got.err = err
 					return
@@ -689,7 +694,7 @@ func runC04Generated(t *testing.T, registry map[int]lexer.Definition, dataFile s
 			}
 			if len(errs) == 0 {
 				// ... and through the reader entry point
-				if l, err := gen.Lex("f", strings.NewReader(in)); err == nil {
+				if l, err := gen.Lex("f", iotest.DataErrReader(strings.NewReader(in))); err == nil {
 					if toks, err := lexer.ConsumeAll(l); err == nil {
 						r.Count("reader_entry_point")
 						errs = lexgen.ValidateTokens(in, "f", toks, !d.RS.HasLowerCase())
